@@ -5,10 +5,10 @@ namespace I2N.Extracted.Pool
 
 /-- `get_source_scope`: the returned literals in source order (other gateway, other host, the shared pool's
 path, the swarm pool's path, anything else) -/
-abbrev scopeOtherGateway : String := "shared"
-abbrev scopeOtherHost : String := "own"
-abbrev scopeSharedPath : String := "cluster"
-abbrev scopeSwarmPath : String := "swarm"
+abbrev scopeOtherGateway : String := "cluster"
+abbrev scopeOtherHost : String := "swarm"
+abbrev scopeSharedPath : String := "shared"
+abbrev scopeSwarmPath : String := "own"
 abbrev scopeElse : String := "shared"
 
 /-- `get_sources.proximity`: the four `score +=` literals in source order -/
